@@ -1,5 +1,5 @@
 CONSTANTS
-  Ticks = {1, 2, 5, 43000}
+  Ticks = {1, 2, 3, 5, 43000}
   Horizon = 100000000
   RawTTLs = {0, 3, 7, 300}
   AuxSet <- AuxNone
@@ -25,5 +25,5 @@ CONSTANTS
   PubInits <- PubInitsD
   Res = {1, 2}
 INIT InitDeleg
-NEXT NextD
+NEXT NextDSim
 CHECK_DEADLOCK FALSE
